@@ -605,6 +605,10 @@ def c08_after_failures(work, rep, tier, seed):
     probes = [e for e in evs if e.get("e") == "update" and not e.get("fired")]
     rep.cov["evaluations"] += len(probes)
     rep.cov["honest_probes_after_storage_failures"] = len(probes)
+    # an honest log may sign its unchanged checkpoint again: for every kind of log key the configuration admits (Ed25519, ECDSA and RSA with their
+    # randomised or alternative encodings), on a witness wired as Main wires it (LogConfig.AsLogMap), the re-signed checkpoint refreshes
+    import checks_omni
+    checks_omni.keytypes_part(work, rep, seed, "C08")
 
 
 CHECKS["C08"] = make_check("C08", c08_plans,
